@@ -13,6 +13,11 @@ Three groups (the `kind` of a shape):
             the real binary.
 * ``data``  data nesting built at run time (value-recursive helpers: clone_into, promote, Display,
             join, drop glue).
+* ``comp``  composite "recursion THEN tower" (`composite(rt, tower, d, n)`): an ``rt`` shape driven to the
+            chosen depth `d`, at whose bottom a function runs whose body is an `n`-level tower of nested
+            statements or expressions (`TOWERS`).  A descent that is probed only through something the
+            tower does not do (e.g. a condition that needs no evaluation) overruns the stack only when it
+            starts close below the budget line -- each ingredient alone is harmless.
 
 Each shape has a finite `construct` tag; signatures of known findings are
 `{"defect": "D-08", "stage": <stage>, "construct": <construct>}`.
@@ -34,7 +39,8 @@ RT = {}
 
 
 def rt(name, defs, call, pre="", covers=()):
-    RT[name] = {"kind": "rt", "construct": name, "src": _rt(defs, call, pre), "covers": list(covers)}
+    RT[name] = {"kind": "rt", "construct": name, "src": _rt(defs, call, pre), "covers": list(covers),
+                "base_case": (BASE.split("%s")[0]) in defs}
 
 
 # -- direct / mutual -------------------------------------------------------------------------
@@ -194,7 +200,7 @@ rt("command_name",
 def bare(name, defs, call):
     def src(limit):
         return defs + (call if limit >= INF else "shout(0)\n")
-    RT["bare_" + name] = {"kind": "rt", "construct": "bare_" + name, "src": src, "covers": []}
+    RT["bare_" + name] = {"kind": "rt", "construct": "bare_" + name, "src": src, "covers": [], "base_case": False}
 
 
 bare("return", "do spin() start\n    return spin()\nend\n", "shout(spin())\n")
@@ -271,6 +277,33 @@ nest("assign_index_chain", lambda n: "make a get [0]\n" + dead("a" + rep("[0]", 
 nest("lex_number", lambda n: "make x get " + rep("1.a ", n, 10) + "\n", construct="invalid_number")
 
 
+# -- bare runs of every prefix / bracketing construct in further positions and in pairwise mixtures: a run with
+#    NOTHING else on the cycle is what finds a helper that re-enters itself (or its sibling) without going back
+#    through the probed entry point; `n` always counts nesting LEVELS (a mixture of two constructs has n/2 pairs)
+nest("not_neg", lambda n: "make x get " + rep("not minus ", n // 2, 20) + "1\nshout(x)\n")
+nest("neg_not", lambda n: "make x get " + rep("minus not ", n // 2, 20) + "true\nshout(x)\n")
+nest("not_paren", lambda n: "make x get " + rep("not (", n // 2) + "true" + rep(")", n // 2) + "\nshout(x)\n")
+nest("neg_paren", lambda n: "make x get " + rep("minus (", n // 2) + "1" + rep(")", n // 2) + "\nshout(x)\n")
+nest("paren_array", lambda n: "make x get " + rep("([", n // 2) + "1" + rep("])", n // 2) + "\nshout(x.len())\n")
+nest("array_multi", lambda n: "make x get " + rep("[0, ", n) + "0" + rep("]", n) + "\nshout(x.len())\n")
+nest("call_args2", lambda n: "do pick(x, y) start\n    return y\nend\nmake y get " + rep("pick(0, ", n, 20) + "1" + rep(")", n)
+     + "\nshout(y)\n")
+nest("call_index_mix", lambda n: "do f(x) start\n    return x\nend\nmake a get [0]\nmake y get " + rep("a[f(", n // 2) + "0"
+     + rep(")]", n // 2) + "\nshout(y)\n")
+nest("assign_index_nest", lambda n: "make a get [0]\na[" + rep("a[", n) + "0" + rep("]", n) + "] get 1\n")
+nest("arg_not", lambda n: "shout(" + rep("not ", n) + "true)\n")
+nest("cond_paren", lambda n: "if to say (" + rep("(", n) + "true" + rep(")", n) + ") start\nend\n")
+nest("cond_not", lambda n: "jasi (" + rep("not ", n) + "true) start\n    comot\nend\n")
+nest("return_neg", lambda n: "do f() start\n    return " + rep("minus ", n) + "1\nend\nshout(f())\n")
+# statement towers with literal-true and with variable conditions (the `if`/`loop` shapes above never enter a body
+# below the first level at run time only when the condition is false: `if` uses true, `loop` uses false)
+nest("loop_true", lambda n: rep("jasi (true) start ", n, 8) + "\n" + rep("comot end ", n, 20) + "\n")
+nest("if_var", lambda n: "make t get true\n" + rep("if to say (t) start ", n, 8) + "\n" + rep("end ", n) + "\n")
+nest("loop_var", lambda n: "make t get true\n" + rep("jasi (t) start ", n, 8) + "\n" + rep("comot end ", n, 20) + "\n")
+nest("stmt_mix", lambda n: rep("start if to say (true) start jasi (true) start ", n // 3, 4) + "\n"
+     + rep("comot end end end ", n // 3, 10) + "\n")
+
+
 # constructs the parser builds with a LOOP: their depth is not bounded by the parser's own probe, so a helper that
 # recurses on them with a small frame needs far more levels than the nested constructs to overrun 8 MiB
 CHAINS = ["binary_chain", "and_chain", "method_chain", "index_chain", "call_chain", "member_chain", "assign_index_chain"]
@@ -322,6 +355,71 @@ data("wrap_chunk_pass", lambda n, chunk=500: "do id(x) start\n    return x\nend\
      + _wrap_loop(n, "make b get id(a)\nshout(b.len())\n", chunk), construct="copy")
 data("wrap_chunk_push", lambda n, chunk=500: _wrap_loop(n, "make b get []\nb.push(a)\nshout(b.len())\n", chunk),
      construct="copy")
+
+
+# ------------------------------------------------------------------------------------------------
+# composite shapes: recursion THEN tower
+#
+# `open`/`close` are repeated n times around `leaf`; statement towers form the body of `tower()`, expression
+# towers are the argument of one call statement (an expression statement is never pruned as a dead store).
+# `literal`: the tower's conditions are boolean literals (nothing has to be evaluated to descend).
+TOWERS = {}
+
+
+def tower(name, open_, leaf, close, expr=False, pre="", literal=False, per_line=8):
+    TOWERS[name] = {"open": open_, "leaf": leaf, "close": close, "expr": expr, "pre": pre, "literal": literal,
+                    "per_line": per_line}
+
+
+_T = "    make t get true\n"
+_U = "    make u get false\n"
+tower("if_true", "if to say (true) start ", "tw_id(0)\n", "end ", literal=True)
+tower("if_var", "if to say (t) start ", "tw_id(0)\n", "end ", pre=_T)
+tower("if_cmp", "if to say (1 na 1) start ", "tw_id(0)\n", "end ")
+tower("else_false", "if to say (false) start end if not so start ", "tw_id(0)\n", "end ", literal=True, per_line=4)
+tower("else_var", "if to say (u) start end if not so start ", "tw_id(0)\n", "end ", pre=_U, per_line=4)
+tower("loop_true", "jasi (true) start ", "tw_id(0)\n", "comot end ", literal=True)
+tower("loop_var", "jasi (t) start ", "tw_id(0)\n", "comot end ", pre=_T)
+tower("block", "start ", "tw_id(0)\n", "end ", literal=True, per_line=20)
+# nothing at all is evaluated inside these two: no probe can come from the leaf either
+tower("if_true_empty", "if to say (true) start ", "", "end ", literal=True)
+tower("loop_true_empty", "jasi (true) start ", "", "comot end ", literal=True)
+tower("array", "[", "0", "]", expr=True, literal=True, per_line=40)
+tower("paren", "(", "0", ")", expr=True, literal=True, per_line=40)
+tower("paren_binary", "(1 add ", "0", ")", expr=True, literal=True, per_line=10)
+tower("neg", "minus ", "1", "", expr=True, literal=True, per_line=20)
+tower("call", "tw_id(", "0", ")", expr=True, per_line=20)
+tower("builtin", "typeof(", "0", ")", expr=True, per_line=10)
+tower("index", "ix[", "0", "]", expr=True, pre="    make ix get [0]\n", per_line=20)
+
+
+def tower_fn(kind, n):
+    """`do tower() start <n levels of `kind`> return 1 end` (plus the identity helper the towers use)."""
+    t = TOWERS[kind]
+    if t["expr"]:
+        body = "tw_id(" + rep(t["open"], n, t["per_line"]) + t["leaf"] + rep(t["close"], n, 40) + ")\n"
+    else:
+        body = rep(t["open"], n, t["per_line"]) + "\n" + t["leaf"] + rep(t["close"], n, 20) + "\n"
+    return "do tw_id(x) start\n    return x\nend\ndo tower() start\n" + t["pre"] + body + "    return 1\nend\n"
+
+
+_BASE_HEAD = "    if to say (n pass %d) start\n"
+
+
+def composite(rt_name, kind, d, n):
+    """Recursion shape `rt_name` driven to depth `d`; its base case calls `tower()` (an `n`-level tower of
+    `kind`) before it returns.  Must end in `Stack overflow`, an ordinary diagnostic or normally."""
+    sh = RT[rt_name]
+    if not sh.get("base_case"):
+        raise ValueError(f"recursion shape {rt_name} has no parametrised base case")
+    head = _BASE_HEAD % d
+    src = sh["src"](d)
+    if head + "        return" not in src:
+        raise ValueError(f"recursion shape {rt_name}: base case not found")
+    return tower_fn(kind, n) + src.replace(head + "        return", head + "        tower()\n        return")
+
+
+COMPOSITE_RT = [k for k, v in RT.items() if v.get("base_case")]
 
 
 ALL = {}
